@@ -73,6 +73,8 @@ type FnEnc struct {
 	parent   *FnEnc // inlining caller (its unescaped locals survive our havocs too)
 	lastRes  map[string]lastCall
 	callOrd  map[*ssa.CallCommon]int
+	applyCallee *ssa.Function   // static callee whose contract is being applied (frame of assigns-less contracts)
+	applyCall   *ssa.CallCommon
 	checkAtHit map[*CheckAt]int
 	locals   []*ssa.Alloc
 }
